@@ -39,6 +39,8 @@ Counters(ev) ==            \* what the hook shows after the call agrees with the
 Enc(o) == (o[1] + 8) + 16 * (o[2] + 8)
 Dec(e) == <<(e % 16) - 8, (e \div 16) - 8, 1, 1>>
 Rev(s) == [i \in 1..Len(s) |-> s[Len(s) + 1 - i]]
+(* x is one of the keys from, from + step, ..., from + (n - 1) * step of a batched event *)
+InBatch(ev, x) == x >= ev.from /\ x <= ev.from + (ev.n - 1) * ev.step /\ (x - ev.from) % ev.step = 0
 
 TReset ==
     /\ Ev("Reset")
@@ -163,8 +165,8 @@ TLookB ==
            R  == ev.from..(ev.from + ev.n - 1)
        IN  /\ {ev.hits[i] : i \in DOMAIN ev.hits} = R \cap live          \* found exactly the live ones
            /\ Len(ev.hits) = Cardinality(R \cap live)
-           /\ \A i \in DOMAIN ev.hits :
-                 /\ ev.hits[i] \in live
+           /\ TRUE = \A i \in DOMAIN ev.hits :       \* ("TRUE =": evaluated as an expression; as an action TLC
+                 /\ ev.hits[i] \in live               \*  would unfold the quantifier recursively)
                  /\ Enc(val[ev.hits[i]].o) = ev.o[i]
                  /\ val[ev.hits[i]].hd = ev.hd[i]
            /\ PrintT(<<"VF:lookb", ev.n, Len(ev.hits)>>)
@@ -177,13 +179,13 @@ TLookB ==
 
 TRemB ==
     /\ Ev("RemB")
-    /\ LET ev == TraceLog[l]
-           R  == {ev.from + i * ev.step : i \in 0..(ev.n - 1)}
-       IN  /\ live' = live \ R
-           /\ val' = [k \in live \ R |-> val[k]]
-           /\ lru' = SelectSeq(lru, LAMBDA x : x \notin R)
+    /\ LET ev   == TraceLog[l]
+           keep == {x \in live : ~InBatch(ev, x)}
+       IN  /\ live' = keep
+           /\ val' = [k \in keep |-> val[k]]
+           /\ lru' = SelectSeq(lru, LAMBDA x : ~InBatch(ev, x))
            /\ dead' = ev.ctr[2]
-           /\ dead' \in 0..(dead + Cardinality(R \cap live))
+           /\ dead' \in 0..(dead + Cardinality(live) - Cardinality(keep))   \* each remove leaves at most one dead position
            /\ ret' = Void
            /\ UNCHANGED freeze
            /\ Counters(ev)
@@ -194,12 +196,11 @@ TUseB ==
     /\ Ev("UseB")
     /\ LET ev == TraceLog[l]
            ks == [i \in 1..ev.n |-> ev.from + (i - 1) * ev.step]
-           R  == {ks[i] : i \in 1..ev.n}
        IN  /\ ev.nmissing = 0
-           /\ R \subseteq live
-           /\ \A i \in 1..ev.n : /\ Enc(val[ks[i]].o) = ev.o[i]
-                                 /\ (i % 2 = 1) => val[ks[i]].pix = <<ev.pix[i]>>   \* odd positions: no_mask route
-           /\ lru' = Rev(ks) \o SelectSeq(lru, LAMBDA x : x \notin R)
+           /\ TRUE = \A i \in 1..ev.n : ks[i] \in live
+           /\ TRUE = \A i \in 1..ev.n : /\ Enc(val[ks[i]].o) = ev.o[i]
+                                        /\ (i % 2 = 1) => val[ks[i]].pix = <<ev.pix[i]>>   \* odd positions: no_mask route
+           /\ lru' = Rev(ks) \o SelectSeq(lru, LAMBDA x : ~InBatch(ev, x))
            /\ dead' = ev.ctr[2] /\ dead' = dead
            /\ ret' = Void
            /\ UNCHANGED <<live, val, freeze>>
